@@ -137,7 +137,7 @@ Proof. split; [intro s; apply Permutation_refl | split; vm_compute; reflexivity]
    tables from their initializers); for every input, running the translated find(), uc_isdw(),
    uc_iszw(), uc_acomb(), uc_wid() and uc_isbell() returns the value of the model RenDefs.v that the
    theorems above speak about, with every table access inside its table. *)
-From NV Require Import CLite CLiteProps GenCFuncs TrUc TrUcTab.
+From NV Require Import CLite CLiteProps GenCFuncs CLiteTac TrUcCode TrUcTab.
 
 (* the bisection, for ANY table in memory (not only the three of uc.c) *)
 Theorem C17_tr_find : forall m g tab c r d fuel,
